@@ -2,9 +2,11 @@
 //! rpm-rs/rpm code in /repo.  Each scenario drives the public API and records one ndjson event
 //! per call (arguments + projected result) for validation by the matching trace specification,
 //! or replays TLC-generated cases.
+mod alloc;
 mod util;
 mod c02;
 mod c03;
+mod c04;
 mod c06;
 mod c07;
 mod c10;
@@ -21,6 +23,9 @@ mod cfggen;
 mod pkg;
 mod pkgobs;
 mod rawhdr;
+
+#[global_allocator]
+static GLOBAL: alloc::Counting = alloc::Counting;
 
 struct ForceFormat;
 impl log::Log for ForceFormat {
@@ -43,6 +48,8 @@ fn main() {
     match args.scenario.as_str() {
         "c02" => c02::run(&args),
         "c03" => c03::run(&args),
+        "c04" => c04::run(&args),
+        "c04-child" => c04::run_child(&args),
         "c06" => c06::run(&args),
         "c07" => c07::run(&args),
         "c10" => c10::run(&args),
